@@ -123,7 +123,7 @@ func NewHostnameHandler(c Config, backend IPFSBackend, next http.Handler) http.H
 					webError(w, r, &c, err, http.StatusBadRequest)
 					return
 				}
-				if !strings.HasPrefix(r.Host, dnsCID) {
+				if !strings.HasPrefix(host, dnsCID) {
 					dnsPrefix := "/" + ns + "/" + dnsCID
 					newURL, err := toSubdomainURL(gwHostname, dnsPrefix+r.URL.Path, r, useInlinedDNSLink, backend)
 					if err != nil {
